@@ -267,9 +267,12 @@ def report(mod: Any, m: Merged, tier: str, seed: int, t0: float, write_evidence:
                 lines.append('  key=%s count=%d detail=%s' % (key, len(vs), json.dumps(v['detail'])[:240]))
         if len(replays) > 12:
             lines.append('  ... and %d more violation keys (all witnesses under %s)' % (len(replays) - 12, rdir))
-    for key, n in sorted(hit_known.items()):
-        lines.append('KNOWN-FINDING: property=%s %s [%s] (observed %d times)' % (
-            pid, known_keys[key].get('what', ''), key, n))
+    # one line per listed finding of this property, met by this run's cases or not (a finding whose trigger is rare - one input in
+    # a thousand - stays listed and announced; the count says what this run saw)
+    for key in sorted(known_keys):
+        n = hit_known.get(key, 0)
+        lines.append('KNOWN-FINDING: property=%s %s [%s] (observed %d times%s)' % (
+            pid, known_keys[key].get('what', ''), key, n, '' if n or replay else ' in this run'))
 
     # non-vacuity floors are about a whole run; a replay executes one recorded case
     floors = mod.floors(tier) if hasattr(mod, 'floors') and not replay else {}
